@@ -147,8 +147,8 @@ func (l *Lexer) Split() []*Token {
 		}
 		switch char {
 		case ' ', '\t', '\n', '\v', '\f', '\r':
-			// Every blank character separates words (the same set that
-			// buildToken would trim off a word)
+			// Every blank character separates words, so a word never has a
+			// blank at either end and buildToken takes it as it is
 			if strStart {
 				tokLen++
 				break
@@ -392,7 +392,7 @@ func isFloat(val string) bool {
 }
 
 func buildToken(curr string, pos int) *Token {
-	curr = strings.ToLower(strings.TrimSpace(curr))
+	curr = strings.ToLower(curr)
 	if len(curr) == 0 {
 		return nil
 	}
